@@ -5,6 +5,30 @@ HERE = os.path.dirname(os.path.dirname(os.path.abspath(__file__)))
 ALL = ["C%02d" % i for i in range(1, 21)]
 
 CHECKS = {
+ "C01": dict(
+   level="exploration",
+   technique="runtime invariant monitor at quiescent points (after every delivered tx and every block) over a seeded hostile CDP workload; shadow set of vaults awaiting auction settlement",
+   text="Real signed vault / stable-mint / locker / liquidate / bid transactions and real ABCI blocks (time gaps, oracle price moves, generation-1 and generation-2 liquidations and auctions) are driven on several fee configurations; after every event custody-per-collateral-denom, vault count and per-product collateral-locked / tokens-minted identities are recomputed from the records with big.Int and compared; a violation is attributed to the event in which the discrepancy changed. Held on what was observed.",
+   note="Trusts: keeper getters used for reading, the observed awaiting-settlement set (seizure = vault vanishes and a locked vault naming it appears). Generation-1 sweeps are not wired into the module manager at this commit, so generation-1 seizures come from liquidate messages only.",
+   design="§4 C01"),
+ "C02": dict(
+   level="exploration",
+   technique="runtime monitor: supply vs recorded principal after every event + per-message balance-delta oracle (big.Int), over fee configurations and decimal-scale pairs",
+   text="The harness never mints a debt denom, so supply <= recorded principal (== in histories without liquidation) is checked exactly after every tx and block; every successful mint / repay / close / stable-mint message is checked for supply delta = principal delta, collector delta = floor(principal*fee), user delta = principal - fee. Held on what was observed.",
+   note="ESM-registered debt is not in the principal sum (the workload of this check does not execute ESM).",
+   design="§4 C02"),
+ "C03": dict(
+   level="exploration",
+   technique="boundary-directed runtime monitoring: amounts solved with exact rationals to land on the minimum ratio / floor / ceiling, boundary-1/boundary/boundary+1 attempted, exact CR with interval slack as oracle",
+   text="For generated (product, oracle prices from 1 to 2^40, decimals 6/8/12/18, debt size, 0..3 interest accruals over up to 5 years) the collateral amount that makes the exact ratio equal the product minimum is solved and create/withdraw/draw are attempted around it; on success the exact ratio (principal + accrued interest) must be >= minimum within the slack of the three Dec roundings; principal >= floor for touched vaults; sum of principal <= ceiling after mints; operations needing an inactive price must fail.",
+   note="Debt value is read as principal + accrued interest (the code also adds the closing fee for draw/withdraw, which is stricter).",
+   design="§4 C03"),
+ "C13": dict(
+   level="exploration",
+   technique="runtime invariant monitor on locker and collector books after every event + conservation oracle (net-fee delta = collector coin delta)",
+   text="Mixed CDP workload with lockers, savings rates {0,0.1,0.3}, fee-generating vault operations, liquidation penalties and surplus/debt flags; after every event: deposited total = sum of locker balances, locker custody >= deposits, withdraw/close pay exactly requested/full balance, collector custody >= sum of net fees, net fees never negative, and the change of recorded net fees equals the change of collector custody (minus unsolicited sends).",
+   note="Net-fee records are read per (app, asset) with the single-record getter for every asset of the universe.",
+   design="§4 C13"),
  "C17": dict(
    level="exploration",
    technique="runtime monitor: reference ring model compared with the real price record after every sample (exhaustive short sample sequences + real begin-block oracle pipeline)",
